@@ -13,7 +13,7 @@ def decoder_for(codec):
 
 
 def gen_stream_workload(r, max_values=4, small=False, force_codec=None, allow_f2=None,
-                        constraints=False, constructed_default=False):
+                        constraints=False, constructed_default=False, variants=True):
     codec = force_codec or r.choice(CODEC_CHOICES)
     cfg = U.GenCfg()
     cfg.max_depth = r.choice([1, 2, 3, 3]) if not small else r.choice([1, 2])
@@ -62,6 +62,9 @@ def gen_stream_workload(r, max_values=4, small=False, force_codec=None, allow_f2
                 values[i] = U.gen_value(r, desc, vc)
     w = {'desc': desc, 'values': values, 'codec': codec, 'decoder': decoder_for(codec),
          'use_spec': use_spec, 'open_types': U.has_open(desc)}
+    if variants and decoder_for(codec) == 'ber' and r.random() < 0.25:
+        from simkit import corrupt
+        w['variant'] = corrupt.gen_variant_ops(r)
     return w, cfg
 
 
@@ -130,6 +133,8 @@ def count_run(ctr, cons, st, conf, wl):
     if conf.get('prewrap'):
         inc('kind.pipe.prewrapped')
     inc('codec.%s' % wl.codec_name.split(':')[0])
+    if wl.w.get('variant'):
+        inc('codec.ber-variant-forms')
     inc('spec.%s' % ('with' if wl.use_spec else 'without'))
     if conf.get('threshold') is not None:
         inc('knob.threshold.%s' % conf['threshold'])
@@ -274,6 +279,15 @@ def stream_shrink_candidates(plan):
         c = copy.deepcopy(plan)
         c['config']['threshold'] = 8192
         yield c
+    if w.get('variant'):
+        c = copy.deepcopy(plan)
+        del c['workload']['variant']
+        yield c
+        for j in range(len(w['variant'])):
+            if len(w['variant']) > 1:
+                c = copy.deepcopy(plan)
+                del c['workload']['variant'][j]
+                yield c
     if w['codec'] != 'ber':
         c = copy.deepcopy(plan)
         c['workload']['codec'] = 'ber'
